@@ -493,7 +493,10 @@ def canonical_key(raw: str, site: dict[str, Any], real: str, runtime: list[str],
 	for ds, _ in [(site, real), *descendants]:
 		dn = ds['node']
 		if ds['kind'] == 'expr' and isinstance(dn, (ast.List, ast.Dict)):
-			reals = [r for s2, r in descendants if s2['parent'] == ds['id']]
+			# (the items of the literal: the source of a spread item `*e` / `**e` is not one)
+			srcs = [x.value for x in dn.elts if isinstance(x, ast.Starred)] if isinstance(dn, ast.List) else [v for k, v in zip(dn.keys, dn.values) if k is None]
+			spread = {(x.lineno, x.col_offset, x.end_lineno, x.end_col_offset) for x in srcs}
+			reals = [r for s2, r in descendants if s2['parent'] == ds['id'] and s2['span'] not in spread]
 			heads = [r.split('<')[0] for r in reals]
 			if any(heads.count(h) > 1 and len({r for r in reals if r.split('<')[0] == h}) > 1 for h in set(heads)):
 				return 'list-literal-class-dedup'
